@@ -17,3 +17,7 @@ MODULES = {"C05": ["QuillModel.Props.C05"], "C06": ["QuillModel.Props.C06"], "C0
 OBLIG = ["QuillModel.Obligations.BackendB"]
 OBLIG_BY_PROP = {"C05": ["QuillModel.Obligations.BackendB_C05", "QuillModel.Obligations.BackendB_Common"], "C06": ["QuillModel.Obligations.BackendB_C06", "QuillModel.Obligations.BackendB_C05", "QuillModel.Obligations.BackendB_Common"],
                  "C09": ["QuillModel.Obligations.BackendB_C09", "QuillModel.Obligations.BackendB_Common"]}
+# w2_prog: progress under concurrent frontend activity (Props/C06Progress.lean)
+THEOREMS["C06"] += ["Backend.C06_poll_pops_unless_batch_guard", "Backend.C06_flush_not_overtaken",
+                    "Backend.C06_flush_log_returns_concurrent", "Backend.C06_batch_guard_starves"]
+MODULES["C06"] += ["QuillModel.Props.C06Progress"]
